@@ -30,6 +30,7 @@ type Opts struct {
 	Extra  map[int]int  `json:"extra,omitempty"`  // node id -> redundant paren pairs around the node
 	ValPar map[int]int  `json:"valpar,omitempty"` // NField/NCmp node id -> paren pairs around the value term
 	LstPar map[int]int  `json:"lstpar,omitempty"` // NList node id -> bit mask of list values written in parentheses
+	ArgPar map[int]int  `json:"argpar,omitempty"` // NBoost/NFuzzy node id -> paren pairs around the written number
 	Juxta  map[int]bool `json:"juxta,omitempty"`  // AND node ids written as juxtaposition
 	KwCase []int        `json:"kwcase,omitempty"` // style per keyword occurrence, cycled
 	Fill   []string     `json:"fill,omitempty"`   // whitespace per gap, cycled; gap 0 is leading, last is trailing
@@ -207,7 +208,13 @@ func (p *printer) emit(n *Node, wrap, isRoot bool) {
 			} else {
 				v = &Val{K: VInt, Src: n.ArgS, I: n.Dist}
 			}
+			for i := 0; i < p.o.ArgPar[id]; i++ {
+				p.sym("(", id)
+			}
 			p.term(v, id)
+			for i := 0; i < p.o.ArgPar[id]; i++ {
+				p.sym(")", id)
+			}
 		}
 	}
 	iend := len(p.toks)
